@@ -68,13 +68,25 @@ func (g *gen) composite(name string) bool {
 }
 
 // singles returns every single selection on typ with cost <= budget.
+// key maps an actual type name to the alphabet key (root types may be renamed by a
+// schema{...} declaration; the alphabets are keyed "Query" / "Mutation").
+func (g *gen) key(typ string) string {
+	if m := g.cfg.Schema.Mutation; m != nil && m.Name == typ {
+		return "Mutation"
+	}
+	if q := g.cfg.Schema.Query; q != nil && q.Name == typ {
+		return "Query"
+	}
+	return typ
+}
+
 func (g *gen) singles(typ string, budget int) []sel {
 	var out []sel
 	if budget < 1 {
 		return nil
 	}
 	def := g.cfg.Schema.Types[typ]
-	for _, fn := range g.cfg.Fields[typ] {
+	for _, fn := range g.cfg.Fields[g.key(typ)] {
 		aliases := []string{""}
 		if g.cfg.Aliases {
 			aliases = append(aliases, "x_"+strings.TrimLeft(fn, "_"))
@@ -103,7 +115,7 @@ func (g *gen) singles(typ string, budget int) []sel {
 			}
 		}
 	}
-	for _, cond := range g.cfg.Conds[typ] {
+	for _, cond := range g.cfg.Conds[g.key(typ)] {
 		inner := typ
 		if cond != "" {
 			inner = cond
@@ -289,7 +301,13 @@ func (g *gen) render(ss []sel, dirAt int, dirText string, deferAt map[int]string
 // Enumerate calls emit for every operation of the configured space.
 func Enumerate(cfg GenCfg, emit func(Op)) {
 	g := &gen{cfg: cfg, memo: map[string][][]sel{}}
-	for _, ss := range g.sets(cfg.Root, cfg.MaxNodes) {
+	root := cfg.Root
+	if cfg.Root == "Mutation" && cfg.Schema.Mutation != nil {
+		root = cfg.Schema.Mutation.Name
+	} else if cfg.Root == "Query" && cfg.Schema.Query != nil {
+		root = cfg.Schema.Query.Name
+	}
+	for _, ss := range g.sets(root, cfg.MaxNodes) {
 		nodes, frags := countNodes(ss)
 		if cfg.RequireFragment && frags == 0 {
 			continue
